@@ -73,26 +73,72 @@ theorem digitsValue_cons (radix d : Nat) (ds : List Nat) :
 
 theorem digitsValue_nil (radix : Nat) : digitsValue radix [] = 0 := rfl
 
-/-! ### Finite floating-point values -/
+/-! ### Decimal real literals -/
 
-/-- Mantissa and binary exponent of the finite, non-negative bit pattern `bits`
-(`bits < f.infBits`): the value is `m * 2^e` with
-`m = frac` and `e = 1 - bias - mbits` for a sub-normal (exponent field 0), and
-`m = 2^mbits + frac`, `e = expField - bias - mbits` otherwise. -/
+/-- All bytes are ASCII decimal digits. -/
+def AllDigits (s : Bytes) : Prop := ∀ b ∈ s, 48 ≤ b ∧ b ≤ 57
+
+/-- The number a string of decimal digits denotes. -/
+def decimalValue (s : Bytes) : Nat := digitsValue 10 (s.map (· - 48))
+
+/-- `IsExponent ex x`: `ex` is an exponent part denoting `10^x` — empty (`x = 0`), or
+`e`/`E`, an optional sign, and at least one digit. -/
+inductive IsExponent : Bytes → Int → Prop where
+  | absent : IsExponent [] 0
+  | plain (c : Nat) (ed : Bytes) (hc : c = 69 ∨ c = 101) (hne : ed ≠ []) (hd : AllDigits ed) :
+      IsExponent (c :: ed) (decimalValue ed)
+  | plus (c : Nat) (ed : Bytes) (hc : c = 69 ∨ c = 101) (hne : ed ≠ []) (hd : AllDigits ed) :
+      IsExponent (c :: 43 :: ed) (decimalValue ed)
+  | minus (c : Nat) (ed : Bytes) (hc : c = 69 ∨ c = 101) (hne : ed ≠ []) (hd : AllDigits ed) :
+      IsExponent (c :: 45 :: ed) (-(decimalValue ed : Int))
+
+/-- `IsDecimalText s mant exp10`: the text `s` (without sign) is a decimal real literal
+`ip [. fp] [exponent]` with at least one digit in `ip`, `fp` together, and it denotes
+`mant · 10^exp10`, where `mant` is the number written by the digits `ip fp` and
+`exp10` is the exponent minus the number of fraction digits — i.e. the value is
+`ip.fp · 10^x`. -/
+def IsDecimalText (s : Bytes) (mant : Nat) (exp10 : Int) : Prop :=
+  ∃ (ip fp ex : Bytes) (x : Int), AllDigits ip ∧ AllDigits fp ∧ ip ++ fp ≠ [] ∧ IsExponent ex x ∧
+    ((s = ip ++ ex ∧ fp = []) ∨ s = ip ++ 46 :: (fp ++ ex)) ∧
+    mant = decimalValue (ip ++ fp) ∧ exp10 = x - (fp.length : Int)
+
+/-! ### Finite floating-point values
+
+The value of the finite, non-negative bit pattern `bits` (`bits < f.infBits`) with
+exponent field `E = f.expOf bits` and fraction field `F = f.fracOf bits` is
+
+* `F · 2^(1 - bias - mbits)` when `E = 0` (zero and the sub-normal numbers),
+* `(2^mbits + F) · 2^(E - bias - mbits)` otherwise (the normal numbers).
+
+Every such value is a multiple of the smallest sub-normal `2^(1 - bias - mbits)
+= 1 / 2^(bias + mbits - 1)`; so, without rational numbers,
+
+    value bits = fscaled f bits / funitDen f
+
+with the two natural numbers below, and "`value u` is at least as far from `n/d` as
+`value b`" is the cross-multiplied `fdist f n d b ≤ fdist f n d u`. -/
+
+/-- Integer significand: `F` for `E = 0`, `2^mbits + F` otherwise. -/
 def fmant (f : FloatFmt) (bits : Nat) : Nat :=
   if f.expOf bits = 0 then f.fracOf bits else 2 ^ f.mbits + f.fracOf bits
 
+/-- Binary exponent of the significand's unit: the value is `fmant · 2^fexp`. -/
 def fexp (f : FloatFmt) (bits : Nat) : Int :=
   (if f.expOf bits = 0 then 1 else (f.expOf bits : Int)) - (f.bias : Int) - (f.mbits : Int)
 
-/-- A common (negated) exponent offset: every finite value is an integer multiple of
-`2^(-(bias + mbits - 1))`, the smallest sub-normal.  `fscaled f bits` is the value of
-`bits` in that unit: `fval bits = fscaled f bits * 2^(1 - bias - mbits)`. -/
-def fscaled (f : FloatFmt) (bits : Nat) : Nat :=
-  fmant f bits * 2 ^ (if f.expOf bits = 0 then 0 else f.expOf bits - 1)
+/-- The value in units of the smallest sub-normal: `fmant · 2^(E - 1)` for `E ≥ 1`,
+`fmant` for `E = 0` (`E - 1` is truncated subtraction, so one formula serves both). -/
+def fscaled (f : FloatFmt) (bits : Nat) : Nat := fmant f bits * 2 ^ (f.expOf bits - 1)
 
-/-- The unit of `fscaled` as a fraction: `2^(1 - bias - mbits) = 1 / 2^(bias + mbits - 1)`. -/
+/-- One over the smallest sub-normal: `2^(bias + mbits - 1)`. -/
 def funitDen (f : FloatFmt) : Nat := 2 ^ (f.bias + f.mbits - 1)
+
+/-- `|a - b|` on natural numbers. -/
+def absDiff (a b : Nat) : Nat := (a - b) + (b - a)
+
+/-- Distance between the value of `bits` and `n/d`, multiplied by `d · funitDen f`:
+`|fscaled bits / funitDen - n/d| · d · funitDen = |fscaled bits · d - n · funitDen|`. -/
+def fdist (f : FloatFmt) (n d bits : Nat) : Nat := absDiff (fscaled f bits * d) (n * funitDen f)
 
 end C03
 end Scpi
